@@ -2,7 +2,10 @@
 // Member kinds are concrete per query (E1, E2), payloads symbolic:
 //   0 Undefined (never written: auto-vivified slot)   20 removed (a number, then RemoveIndex)
 //   10 null  8 true  9 false  5 unsigned < 100  6 signed in (-100, 100)  4 string of LEN symbolic units
-//   3 nested empty array  31 nested [unsigned]  1 pointer to an unsigned  14 pointer to a string of LEN units
+//   3 nested empty array  31 nested [unsigned]  2 nested empty object  21 nested {"a":unsigned}
+//   1 pointer to an unsigned  14 pointer to a string of LEN units
+// h_object: the same for object roots; members under the keys K1, K2 (ids: 0 "", 1 "a", 2 "b", 3 "ab", 4 a lone quote, which must be escaped);
+//   0 = member created by obj[key] and never written, 20 = member written and removed by key
 // The text must be exactly what the model writer predicts behind an arbitrary one-unit prefix: members in order,
 // Undefined / removed members omitted, strings as JSONUtils::Escape writes them, no comma before the closing bracket.
 // ROOT: 0 the array itself, 1 a pointer to it.   h_scalar_root: a scalar / string root writes nothing (ValueTest.hpp:75).
@@ -68,6 +71,8 @@ template <int E> static bool add_member(V &arr, unsigned idx, FS &e, V &tgt) {
     }
     if (E == 3) { arr += V(T::Array); e += '['; e += ']'; return true; }
     if (E == 31) { V in(T::Array); in += x; arr += Memory::Move(in); e += '['; exp_uint(e, x); e += ']'; return true; }
+    if (E == 2) { arr += V(T::Object); e += '{'; e += '}'; return true; }
+    if (E == 21) { V in; in["a"] = x; arr += Memory::Move(in); e += '{'; e += '"'; e += 'a'; e += '"'; e += ':'; exp_uint(e, x); e += '}'; return true; }
     if (E == 1) { tgt = x; arr.AddPointerToValue(&tgt); exp_uint(e, x); return true; }
     // 14: pointer to a string
     tgt = V((const char *)&c[0], SizeT(LEN));
@@ -114,6 +119,92 @@ extern "C" void h_array() {
     vf_witness();
 }
 
+#ifndef K1
+#define K1 1
+#endif
+#ifndef K2
+#define K2 2
+#endif
+static const char *okey(int id) { return id == 0 ? "" : (id == 1 ? "a" : (id == 2 ? "b" : (id == 3 ? "ab" : "\""))); }
+static unsigned oklen(int id) { return id == 0 ? 0u : (id == 3 ? 2u : 1u); }
+
+// adds the member KEY of kind E to the object and its text to the model
+template <int E, int KEY> static void add_omember(V &obj, FS &e, V &tgt) {
+    u64 x = vf_u64();
+    char c[3];
+    c[0] = char(vf_u8());
+    c[1] = char(vf_u8());
+    c[2] = 0;
+    vf_assume(x < 100);
+    const char *ks = okey(KEY);
+    if (E == 0) { V &r = obj[ks]; (void)r; return; }
+    if (E == 20) { obj[ks] = x; obj.Remove(ks); return; }
+    e += '"';
+    JSONUtils::Escape(ks, SizeT(oklen(KEY)), e);
+    e += '"';
+    e += ':';
+    if (E == 10) { obj[ks] = nullptr; e += 'n'; e += 'u'; e += 'l'; e += 'l'; return; }
+    if (E == 8) { obj[ks] = true; e += 't'; e += 'r'; e += 'u'; e += 'e'; return; }
+    if (E == 9) { obj[ks] = false; e += 'f'; e += 'a'; e += 'l'; e += 's'; e += 'e'; return; }
+    if (E == 5) { obj[ks] = x; exp_uint(e, x); return; }
+    if (E == 6) {
+        const bool neg = (c[0] & 1) != 0 && x != 0;
+        obj[ks] = (neg ? -i64(x) : i64(x));
+        if (neg) e += '-';
+        exp_uint(e, x);
+        return;
+    }
+    if (E == 4) {
+        obj[ks] = V((const char *)&c[0], SizeT(LEN));
+        e += '"';
+        JSONUtils::Escape((const char *)&c[0], SizeT(LEN), e);
+        e += '"';
+        return;
+    }
+    if (E == 3) { obj[ks] = V(T::Array); e += '['; e += ']'; return; }
+    if (E == 31) { V in(T::Array); in += x; obj[ks] = Memory::Move(in); e += '['; exp_uint(e, x); e += ']'; return; }
+    if (E == 2) { obj[ks] = V(T::Object); e += '{'; e += '}'; return; }
+    if (E == 21) { V in; in["a"] = x; obj[ks] = Memory::Move(in); e += '{'; e += '"'; e += 'a'; e += '"'; e += ':'; exp_uint(e, x); e += '}'; return; }
+    // 1: pointer to an unsigned
+    tgt = x;
+    obj[ks].SetPointerToValue(&tgt);
+    exp_uint(e, x);
+}
+
+extern "C" void h_object() {
+    FS e;
+    {
+        V t1, t2;
+        V obj(T::Object);
+        V root;
+        char pre = char(vf_u8());
+        FS s;
+        s += pre;
+        e += '{';
+        const bool p1 = (N > 0) && present(E1), p2 = (N > 1) && present(E2);
+        if (N > 0) add_omember<E1, K1>(obj, e, t1);
+        if (p1 && p2) e += ',';
+        if (N > 1) add_omember<E2, K2>(obj, e, t2);
+        e += '}';
+#if ROOT == 1
+        root.SetPointerToValue(&obj);
+        root.Stringify(s, 17);
+#else
+        obj.Stringify(s, 17);
+#endif
+        vf_assert(!s.overflow && !e.overflow, 2);
+        vf_assert(s.Length() == 1 + e.Length(), 3);
+        vf_assert(s.buf[0] == pre, 4);
+        unsigned i = vf_u32();
+        vf_assume(i < e.Length());
+        vf_assert(s.buf[1 + i] == e.buf[i], 5);
+        const unsigned n = s.Length();
+        vf_assert(n >= 3 && s.buf[1] == '{' && s.buf[n - 1] == '}', 6);
+        vf_assert(s.buf[n - 2] != ',', 7);                           // no comma before the closing bracket
+    }
+    vf_witness();
+}
+
 extern "C" void h_scalar_root() {          // a root that is not a container (or a pointer to one) writes nothing
     {
         u64 x = vf_u64();
@@ -155,27 +246,50 @@ extern "C" void h_real_stream() {          // the String-returning overload thro
     vf_witness();
 }
 
-// Stringify then Parse gives an equal tree (and stringify-parse-stringify is a fixed point) -- for member kinds whose text
-// is concrete: literals, nested empty arrays, omitted members (0, 20, 10, 8, 9, 3).  Numbers and strings make the text
-// layout symbolic and with it the kinds the parser creates; that composition did not reach a verdict and is not claimed.
-static T kind_of(int e) { return e == 10 ? T::Null : (e == 8 ? T::True : (e == 9 ? T::False : T::Array)); }
+// Stringify then Parse gives an equal tree, and stringify-parse-stringify is a fixed point (array or object root, RT_OBJ).
+static bool same_leaf(const V &a, const V &b) {            // kind, payload, text; containers: kind and member count
+    if (a.Type() != b.Type()) return false;
+    switch (a.Type()) {
+        case T::UIntLong: return a.GetUInt64() == b.GetUInt64();
+        case T::IntLong: return a.GetInt64() == b.GetInt64();
+        case T::String: return a.Length() == b.Length() && StringUtils::IsEqual(a.StringStorage(), b.StringStorage(), a.Length());
+        case T::Array:
+        case T::Object: return a.Size() == b.Size();
+        default: return true;
+    }
+}
+#ifndef RT_OBJ
+#define RT_OBJ 0
+#endif
 extern "C" void h_roundtrip() {
     {
         FS e;
         V t1, t2;
-        V arr(T::Array);
+        V doc(RT_OBJ ? T::Object : T::Array);
         FS s;
-        if (N > 0) add_member<E1>(arr, 0, e, t1);
-        if (N > 1) add_member<E2>(arr, 1, e, t2);
-        arr.Stringify(s, 17);
+#if RT_OBJ
+        if (N > 0) add_omember<E1, K1>(doc, e, t1);
+        if (N > 1) add_omember<E2, K2>(doc, e, t2);
+#else
+        if (N > 0) add_member<E1>(doc, 0, e, t1);
+        if (N > 1) add_member<E2>(doc, 1, e, t2);
+#endif
+        doc.Stringify(s, 17);
         vf_assert(!s.overflow, 1);
         FS scratch;
         V back = JSON::Parse(scratch, (const char *)s.First(), s.Length());
         const bool p1 = (N > 0) && present(E1), p2 = (N > 1) && present(E2);
         const unsigned cnt = (p1 ? 1u : 0u) + (p2 ? 1u : 0u);
-        vf_assert(back.Type() == T::Array && back.Size() == cnt, 2);       // Undefined members are gone, the rest is in order
-        if (p1) vf_assert(back.GetValue(0) != nullptr && back.GetValue(0)->Type() == kind_of(E1) && back.GetValue(0)->Size() == 0, 3);
-        if (p2) vf_assert(back.GetValue(cnt - 1) != nullptr && back.GetValue(cnt - 1)->Type() == kind_of(E2) && back.GetValue(cnt - 1)->Size() == 0, 4);
+        vf_assert(back.Type() == doc.Type() && back.Size() == cnt, 2);       // Undefined members are gone, the rest is in order
+#if RT_OBJ
+        if (p1) { const V *o = doc.GetValue(okey(K1), SizeT(oklen(K1))); const V *b = back.GetValue(okey(K1), SizeT(oklen(K1)));
+                  vf_assert(o != nullptr && b != nullptr && b == back.GetValue(SizeT(0)) && same_leaf(*o, *b), 3); }
+        if (p2) { const V *o = doc.GetValue(okey(K2), SizeT(oklen(K2))); const V *b = back.GetValue(okey(K2), SizeT(oklen(K2)));
+                  vf_assert(o != nullptr && b != nullptr && b == back.GetValue(SizeT(cnt - 1)) && same_leaf(*o, *b), 4); }
+#else
+        if (p1) { const V *o = doc.GetValue(SizeT(0)); const V *b = back.GetValue(SizeT(0)); vf_assert(o != nullptr && b != nullptr && same_leaf(*o, *b), 3); }
+        if (p2) { const V *o = doc.GetValue(SizeT(1)); const V *b = back.GetValue(SizeT(cnt - 1)); vf_assert(o != nullptr && b != nullptr && same_leaf(*o, *b), 4); }
+#endif
         FS s2;
         back.Stringify(s2, 17);                                            // fixed point
         vf_assert(!s2.overflow && s2.Length() == s.Length(), 5);
